@@ -2,7 +2,7 @@
 From Coq Require Import String List NArith ZArith Bool Lia.
 From Coq Require Import ZifyN ZifyBool.
 Import ListNotations.
-From STFS Require Import Str Db Tape Index Ops Fs Diff Norm C01Str C01Sim C01Rows T02Ns T02Db T02Spec T02Test.
+From STFS Require Import Str Db Tape Index Ops Fs Diff Norm C01Str C01Sim C01Rows T02Ns T02Db T02Create T02Spec T02Test.
 Open Scope N_scope.
 
 Definition goodb (n : str) : bool := is_abs n && eqb_str (path_clean n) n.
@@ -17,7 +17,7 @@ Proof. unfold nonrootb. intro H. apply negb_true_iff in H. apply eqb_str_neq. ex
 
 Definition create_preb (a : ns) (n : str) (d : content) : bool :=
   (clen d <? 10 ^ 40)
-  && match lookup a n with Some v => is_dir v | None => true end.
+  && match lookup a n with Some v => is_dir v || negb ((n_size v =? 0) && no_content d) | None => true end.
 
 Definition call_preb (a : ns) (k : call) : bool :=
   match k with
@@ -31,7 +31,8 @@ Definition call_preb (a : ns) (k : call) : bool :=
 Lemma create_preb_sound a n d : create_preb a n d = true -> create_pre a n d.
 Proof.
   unfold create_preb, create_pre. intro H. apply andb_true_iff in H as [H0 H1].
-  split; [apply N.ltb_lt; exact H0|]. destruct (lookup a n); [exact H1|exact I].
+  split; [apply N.ltb_lt; exact H0|]. destruct (lookup a n); [|exact I].
+  apply orb_true_iff in H1 as [H1|H1]; [left; exact H1|right; apply negb_true_iff; exact H1].
 Qed.
 
 Lemma call_preb_sound a k : call_preb a k = true -> call_pre a k.
